@@ -125,9 +125,28 @@ var rtCount int
 var sharedEnc = hessian.NewEncoder(nil, nil)
 var sharedDec = hessian.NewDecoder(nil, nil)
 
+type gcWriter struct {
+	buf bytes.Buffer
+	n   int
+}
+
+func (g *gcWriter) Write(p []byte) (int, error) {
+	g.n++
+	if g.n%8 == 0 && g.n <= 512 {
+		runtime.GC()
+	}
+	return g.buf.Write(p)
+}
+
 // RoundTripWith is RoundTrip with caller-supplied maps.  The decode entry point rotates:
 // ToObject, a Decoder over a reader that delivers a few octets per Read, a Serializer.
 func RoundTripWith(v interface{}, typMap map[string]reflect.Type, nameMap map[string]string) proj.M {
+	return RoundTripAs(v, v, typMap, nameMap)
+}
+
+// RoundTripAs hands enc to the encoder and compares the result with v (enc is v behind further
+// pointers: the library follows them, the result has the type of v).
+func RoundTripAs(v, enc interface{}, typMap map[string]reflect.Type, nameMap map[string]string) proj.M {
 	ev := proj.M{"ev": "rt", "xpanic": 0}
 	P := proj.New(nameMap)
 	ev["v"] = P.Project(v).JSON()
@@ -153,10 +172,22 @@ func RoundTripWith(v interface{}, typMap map[string]reflect.Type, nameMap map[st
 					sharedEnc.Encode(zoo.HI32{V: 7})
 				}
 			}
-			out, err = sharedEnc.Encode(v)
+			out, err = sharedEnc.Encode(enc)
 			return
 		}
-		out, err = hessian.ToBytes(v, nameMap)
+		if rtCount%3 == 1 && (rtCount/3)%3 == 0 {
+			// a garbage collection every few writes: whatever the encoder remembers about the values
+			// already written (copies of structs passed by value included) must stay valid
+			evia = "Encoder.WriteTo, collecting garbage"
+			gw := &gcWriter{}
+			err = hessian.NewEncoder(nil, nameMap).WriteTo(gw, enc)
+			out = gw.buf.Bytes()
+			if err != nil {
+				out = nil
+			}
+			return
+		}
+		out, err = hessian.ToBytes(enc, nameMap)
 	})
 	ev["evia"] = evia
 	ev["epanic"] = b2i(p)
